@@ -244,6 +244,53 @@ static void case_datum(const Spec2& spec, int alg, const std::vector<std::string
   sx::reached("net2d-datum");
 }
 
+// C09: statistics of a plane network against the oracle (a priori reference deviation: m0 constant, so that a >= b is decided)
+static void case_stats(const Spec2& spec, int alg, bool aposteriori) {
+  std::vector<Real> err = sym_errors(spec);
+  B2 b; if (!build2d(b, spec, err, ALGS[alg])) return; std::string tag = std::string(ALGS[alg]) + (aposteriori ? " a posteriori" : " a priori");
+  make_oracle2d(b, tag); Oracle& o = b.orc; LocalNetwork* IS = b.net.IS.get(); if (!o.resolves) return;
+  if (aposteriori) IS->set_m_0_aposteriori(); else IS->set_m_0_apriori();
+  R2 r = run2d(b, true); sx::check_true(r.ok, tag + " adjusted", r.why); if (!r.ok) return;
+  Real m0 = IS->m_0();
+  sx::check_true(r.dof == o.dof, tag + " degrees of freedom", "");
+  if (aposteriori) sx::check_eq(m0 * m0 * sx::rat(o.dof), o.vpv, tag + " m0^2 dof = v'Pv"); else sx::check_eq(m0, sx::constant(spec.sigma_apr), tag + " m0 = sigma-apr");
+  std::vector<int> cm(r.n); for (int j = 1; j <= r.n; j++) cm[j - 1] = o.col(IS->unknown_pointid(j).str(), IS->unknown_type(j));
+  for (int j = 1; j <= r.n; j++) { Real sd = IS->unknown_stdev(j); sx::check_ge0(sd, tag + " stdev >= 0"); sx::check_eq(sd * sd, m0 * m0 * sx::constant(o.Qx(cm[j - 1], cm[j - 1])), tag + " stdev^2 of " + uname(IS, j) + " = m0^2 q_xx"); }
+  // adjusted observations: cofactor (A Q A')_ii; residual cofactor 1/p - q_L
+  for (int i = 1; i <= r.m; i++) { Q q = 0; for (int a = 0; a < o.A.c; a++) for (int c = 0; c < o.A.c; c++) if (o.A(i - 1, a) != 0 && o.A(i - 1, c) != 0) q += o.A(i - 1, a) * o.Qx(a, c) * o.A(i - 1, c);
+    Real sl = IS->stdev_obs(i); sx::check_ge0(sl, tag + " stdev of adjusted observation >= 0"); sx::check_eq(sl * sl, m0 * m0 * sx::constant(q), tag + " stdev^2 of adjusted observation " + std::to_string(i) + " = m0^2 (A Q A')_ii");
+    sx::check_eq(IS->wcoef_res(i), sx::constant(1 / o.P(i - 1, i - 1) - q), tag + " residual cofactor " + std::to_string(i) + " = 1/p - q_L"); }
+  for (auto& p : spec.pts) { int cx = o.col(p.id, 'X'), cy = o.col(p.id, 'Y'); if (cx < 0 || cy < 0) continue;
+    Real a, bb, alfa; IS->std_error_ellipse(PointID(p.id), a, bb, alfa);
+    Real cxx = sx::constant(o.Qx(cx, cx)), cyy = sx::constant(o.Qx(cy, cy)), cxy = sx::constant(o.Qx(cx, cy)); std::string t2 = tag + " ellipse of " + p.id;
+    sx::check_eq(a * a + bb * bb, m0 * m0 * (cxx + cyy), t2 + ": a^2 + b^2 = m0^2 trace"); sx::check_eq(a * a * bb * bb, m0 * m0 * m0 * m0 * (cxx * cyy - cxy * cxy), t2 + ": a^2 b^2 = m0^4 det");
+    sx::check_ge0(bb, t2 + ": b >= 0"); sx::check_ge0(a, t2 + ": a >= 0"); if (sx::is_const(m0)) sx::check_le(bb, a, t2 + ": a >= b");
+    sx::check_ge0(alfa, t2 + ": bearing >= 0"); sx::check_lt(alfa, sx::constant(mpq_class(M_PI)), t2 + ": bearing < pi");
+    Real s2 = sin(alfa + alfa), c2 = cos(alfa + alfa);
+    sx::check_zero((cxx - cyy) * s2 - sx::rat(2) * cxy * c2, t2 + ": bearing is an eigen-direction"); sx::check_ge0((cxx - cyy) * c2 + sx::rat(2) * cxy * s2, t2 + ": bearing belongs to the major axis"); }
+  sx::reached("net2d-stats");
+}
+
+// C20: ill-posed plane networks: the same diagnosis and, if adjusted, the same results for every algorithm
+static void case_illposed(const Spec2& spec) {
+  std::vector<Real> err = sym_errors(spec);
+  std::vector<R2> rs; std::vector<std::vector<std::string>> removed;
+  for (int alg = 0; alg < 3; alg++) { B2 b; if (!build2d(b, spec, err, ALGS[alg])) return; R2 r = run2d(b, true); rs.push_back(r);
+    std::vector<std::string> rm; { LocalNetwork* IS = b.net.IS.get(); auto c = IS->removed_code.begin(); for (auto i = IS->removed_points.begin(); i != IS->removed_points.end(); ++i, ++c) rm.push_back(i->str() + ":" + std::to_string((int)*c)); }
+    std::sort(rm.begin(), rm.end());       // the set of removed points is the diagnosis; the order of removal follows the solver's numbering of dependent unknowns
+    removed.push_back(rm); }
+  for (int alg = 1; alg < 3; alg++) { std::string t = std::string(ALGS[alg]) + " vs envelope (ill-posed plane network)";
+    sx::check_true(rs[alg].ok == rs[0].ok, t + " both adjusted or both refused", rs[alg].why + " / " + rs[0].why);
+    { std::string l0, l1; for (auto& x : removed[0]) l0 += x + " "; for (auto& x : removed[alg]) l1 += x + " "; sx::check_true(removed[alg] == removed[0], t + " same removed points", "envelope: " + l0 + "| " + ALGS[alg] + ": " + l1); }
+    if (!rs[alg].ok || !rs[0].ok) continue;
+    sx::check_true(rs[alg].dof == rs[0].dof && rs[alg].defect == rs[0].defect && rs[alg].n == rs[0].n && rs[alg].m == rs[0].m, t + " dof, defect, sizes", "");
+    sx::check_eq(rs[alg].vpv, rs[0].vpv, t + " sum of squares");
+    for (size_t i = 0; i < rs[0].r.size() && i < rs[alg].r.size(); i++) sx::check_eq(rs[alg].r[i], rs[0].r[i], t + " residual " + std::to_string(i + 1));
+    for (auto& kv : rs[0].adj) { auto it = rs[alg].adj.find(kv.first); if (it == rs[alg].adj.end()) { sx::fail(t + " unknown missing", kv.first); continue; } sx::check_eq(it->second, kv.second, t + " adjusted " + kv.first); } }
+  sx::note("outcome", rs[0].ok ? "adjusted" : rs[0].why);
+  sx::reached("net2d-illposed");
+}
+
 // ---- families ---------------------------------------------------------------------------------------------
 static Spec2 quad(const std::string& name, const std::string& status, bool with_dist, bool with_angles, int seed) {
   Spec2 s; s.name = name; qla::Rng rng(seed);
@@ -271,6 +318,17 @@ static void gen_cases(const sx::Options& opt, std::vector<sx::Case>& cases) {
     if (th) for (auto& s : fixed) { auto sp = std::make_shared<Spec2>(s); add("net2d/oracle-decreasing/" + s.name, "plane networks", [sp] { g_reverse_order = true; try { case_oracle(*sp); } catch (...) { g_reverse_order = false; throw; } g_reverse_order = false; }); } }
   if (on("C06")) { int k = 0; for (auto& s : fixed) for (int omit = 0; omit < 2; omit++) { int alg = (k++) % 3; auto sp = std::make_shared<Spec2>(s); add("net2d/consistent/" + s.name + "/" + ALGS[alg] + (omit ? "/acord" : "/given"), "plane networks", [sp, alg, omit] { case_consistent(*sp, alg, omit != 0); }); } }
   if (on("C07")) { int k = 0; for (auto& s : fixed) for (int v : {2, 3, 10, 11, 12, 13, 14}) { if (v >= 10 && v - 10 >= (int)s.st.size()) continue; if (!th && v >= 10 && v != 10 && v != 12) continue; int alg = (k++) % 3; auto sp = std::make_shared<Spec2>(s); add("net2d/equiv/" + s.name + "/" + ALGS[alg] + "/variant" + std::to_string(v), "plane networks", [sp, alg, v] { case_equiv(*sp, alg, v); }); } }
+  if (on("C09")) { int k = 0; for (auto& s : fixed) for (int ap = 0; ap < 2; ap++) { int alg = (k++) % 3; auto sp = std::make_shared<Spec2>(s); add("net2d/stats/" + s.name + "/" + ALGS[alg] + (ap ? "/aposteriori" : "/apriori"), "plane networks", [sp, alg, ap] { case_stats(*sp, alg, ap != 0); }); } }
+  if (on("C20")) {
+    std::vector<Spec2> ill;
+    // (networks whose point-removal loop reaches LocalNetwork::singular_coords with an all-zero column are left out: the code computes
+    //  0/0 there and relies on the NaN comparing false, which exact arithmetic cannot follow: no datum at all, one fixed point with distances)
+    { Spec2 s = quad("ill-one-fixed-dirs", "faaaa", false, false, 23); ill.push_back(s); }                                     // directions only with one fixed point: rotation and scale
+    { Spec2 s = quad("ill-single-sight", "ffaaa", true, false, 24); for (auto& st : s.st) { std::vector<O2> keep; for (auto& o : st.obs) if (o.to != 4 && st.from != 4) keep.push_back(o); st.obs = keep; }
+      s.st.erase(std::remove_if(s.st.begin(), s.st.end(), [](const St2& t) { return t.obs.empty(); }), s.st.end()); s.st[0].obs.push_back({0, 4, 0, Q(10)}); ill.push_back(s); }   // E seen by one direction only
+    { Spec2 s = quad("ill-two-fixed-dirs", "ffaaa", false, false, 26); for (auto& st : s.st) { std::vector<O2> keep; for (auto& o : st.obs) if (!(st.from == 3 || o.to == 3)) keep.push_back(o); st.obs = keep; }
+      s.st.erase(std::remove_if(s.st.begin(), s.st.end(), [](const St2& t) { return t.obs.empty(); }), s.st.end()); ill.push_back(s); }                                       // D not observed at all
+    for (auto& s : ill) { auto sp = std::make_shared<Spec2>(s); add("net2d/illposed/" + s.name, "plane networks", [sp] { case_illposed(*sp); }); } }
   if (on("C08")) { for (int alg = 0; alg < 3; alg++) { auto sp = std::make_shared<Spec2>(freen[0]); add(std::string("net2d/datum/quad-dd/") + ALGS[alg], "plane networks", [sp, alg] { case_datum(*sp, alg, {"ccccc", "ccaaa", "acaca", "aaccc"}); });
       auto sq = std::make_shared<Spec2>(freen[1]); add(std::string("net2d/datum/quad-d/") + ALGS[alg], "plane networks", [sq, alg] { case_datum(*sq, alg, {"ccccc", "ccaaa", "acaca"}); }); } }
 }
